@@ -1,4 +1,4 @@
-use crate::{BumpScope, align_pos, settings::BumpAllocatorSettings};
+use crate::{BumpScope, align_pos, raw_bump::RawChunk, settings::BumpAllocatorSettings};
 
 /// Aligns the bump pointer on drop.
 ///
@@ -10,6 +10,12 @@ where
     S: BumpAllocatorSettings,
 {
     pub(crate) scope: &'b mut BumpScope<'a, A, S>,
+
+    /// The chunk that was current when the guard was created.
+    ///
+    /// A by-value copy of an outer scope (`BumpScope::by_value`) can still point to this chunk
+    /// after `scope` has moved on to another chunk, so its bump pointer needs to be aligned too.
+    entry_chunk: RawChunk<A, S>,
 }
 
 impl<A, S> Drop for BumpAlignGuard<'_, '_, A, S>
@@ -18,10 +24,12 @@ where
 {
     #[inline(always)]
     fn drop(&mut self) {
-        if let Some(chunk) = self.scope.raw.chunk.get().as_non_dummy() {
-            let pos = chunk.pos().addr().get();
-            let addr = align_pos(S::UP, S::MIN_ALIGN, pos);
-            unsafe { chunk.set_pos_addr(addr) };
+        for chunk in [self.entry_chunk, self.scope.raw.chunk.get()] {
+            if let Some(chunk) = chunk.as_non_dummy() {
+                let pos = chunk.pos().addr().get();
+                let addr = align_pos(S::UP, S::MIN_ALIGN, pos);
+                unsafe { chunk.set_pos_addr(addr) };
+            }
         }
     }
 }
@@ -32,6 +40,7 @@ where
 {
     #[inline(always)]
     pub(crate) fn new(scope: &'b mut BumpScope<'a, A, S>) -> Self {
-        Self { scope }
+        let entry_chunk = scope.raw.chunk.get();
+        Self { scope, entry_chunk }
     }
 }
